@@ -206,9 +206,7 @@ def pObjOp : P ObjOp
       pure (.req ks, ts)
   | _ => none
 
-/-- `( objf MODE CATCH ( ops OP* ) ( cks SZ* ) ( STR S )* )`: an object with a Partial / Required call history.
-    `objf` / `p` are written by the harness on a tree whose converter ignores the object's state (before the fix
-    C07-object-optionality, probed), `objF` / `P` on a tree whose converter asks the object. -/
+/-- `( objF MODE CATCH ( ops OP* ) ( cks SZ* ) ( STR S )* )`: an object with a Partial / Required call history. -/
 def pObjF (ts : List String) : Option (X × List String) := do
   let (m, ts) ← (match ts with | m :: ts => (pMode m).map (·, ts) | [] => none)
   let (ca, ts) ← pSOpt ts
@@ -221,6 +219,12 @@ def pObjF (ts : List String) : Option (X × List String) := do
   let (fs, ts) ← pMany pField ts
   pure (.objF m ca ops cs (shapeOf fs), ts)
 
+def pMapOf (ts : List String) : Option (X × List String) := do
+  let (kcs, ts) ← pMany pStrCk ts
+  let (v, ts) ← pS ts
+  let (cs, ts) ← pMany pSzCk ts
+  pure (.mapOf kcs v cs, ts)
+
 /-- `( lazy FLAGS X )` with FLAGS ∈ {--, o-, -n, on} (Optional / Nilable applied to the lazy schema), else a base schema. -/
 partial def pX : P X
   | "(" :: "lazy" :: fl :: ts => do
@@ -230,8 +234,11 @@ partial def pX : P X
       let (x, ts) ← pX ts
       let (_, ts) ← expect ")" ts
       pure (.lazy o n x, ts)
-  | "(" :: "objf" :: ts => pObjF ts
   | "(" :: "objF" :: ts => pObjF ts
+  -- `( mapF ( str CK* ) S SZ* )` = Map(String()<CK*>, S)<SZ*>; `mapf`: the same schema on a tree whose convertMap drops
+  -- the key schema (before the fix C07-map-key-schema; probed by the harness)
+  | "(" :: "mapF" :: "(" :: "str" :: ts => pMapOf ts
+  | "(" :: "mapf" :: "(" :: "str" :: ts => pMapOf ts
   | ts => do let (s, ts) ← pS ts; pure (.base s, ts)
 
 /-! ### rendering the model's document as canonical JSON (sorted keys, exact numbers) -/
@@ -363,7 +370,7 @@ partial def reasons (lg top spine : Bool) : S → List String
   | .nul s => reasons lg top false s
   | .obj mode ca part cks shape =>
       (match mode with | .strip => ifNot spine "nested-strip-object" | _ => [])
-      ++ ifNot (!(lg && part)) "partial-keeps-required"
+      ++ ifNot (!(lg && part)) "partial-keeps-required"   -- lg is always false since /repo 792c820 (the converter asks the object)
       ++ (match mode, ca with | .strict, .some _ => ["strict-ignores-catchall"] | _, _ => [])
       ++ ifNot (szSimple cks) "size-check-overwrites"
       ++ (match mode, ca with | .strip, .some _ => ifNot cks.isEmpty "strip-size-after-strip" | _, _ => [])
@@ -480,34 +487,35 @@ def docLine (d : Option JS) : String :=
   | some j => b2s (wfJS j) ++ " " ++ renderJS j
   | none => "error"
 
-/-- why a case lies outside `reprXTop` (class names as in known-findings.txt).  `lg` = the tree's converter ignores
-    the objects' Partial / Required state (before the fix C07-object-optionality). -/
-partial def xReasons (lg top : Bool) : X → List String
-  | .base s => reasons lg top top s
+/-- why a case lies outside `reprXTop` (class names as in known-findings.txt).  `lm` = the tree's convertMap drops the key
+    schema (before the fix C07-map-key-schema).  The converter is modelled as asking the object which fields may be
+    absent (/repo 792c820): a tree that does not is a model ≠ implementation violation. -/
+partial def xReasons (lm top : Bool) : X → List String
+  | .base s => reasons false top top s
   | .lazy o n x =>
       ifNot x.consults "lazy-typed-inner-unvalidated"
       ++ ifNot (if n then true else !o && !acceptsX x .null) "lazy-null"
-      ++ xReasons lg false x
-  | .objF mode ca ops cks shape =>
-      let rq := reqKeysG ((objSt shape.keys ops).fieldOpt) shape
+      ++ xReasons lm false x
+  | .objF mode ca _ cks shape =>
       (match mode with | .strip => ifNot top "nested-strip-object" | _ => [])
-      ++ ifNot (!(lg && (requiredKeys shape).any (fun k => !rq.contains k))) "partial-keeps-required"
-      ++ ifNot (!(lg && rq.any (fun k => !(requiredKeys shape).contains k))) "required-keeps-optional"
       ++ (match mode, ca with | .strict, .some _ => ["strict-ignores-catchall"] | _, _ => [])
       ++ ifNot (szSimple cks) "size-check-overwrites"
       ++ (match mode, ca with | .strip, .some _ => ifNot cks.isEmpty "strip-size-after-strip" | _, _ => [])
-      ++ reasonsCa lg ca ++ reasonsShape lg shape
+      ++ reasonsCa false ca ++ reasonsShape false shape
+  | .mapOf kcks val cks =>
+      ifNot (!(lm && !kcks.isEmpty)) "map-key-schema-dropped"
+      ++ reasons false false false (.str kcks) ++ ifNot (szSimple cks) "size-check-overwrites" ++ reasons false false false val
 
-/-- the document of the tree under test: the fixed converter's, or the one that ignores the objects' state. -/
-def docX (lg : Bool) (x : X) : JS := if lg then toDocLegacy x else toDocX x
+/-- the document of the tree under test: the fixed converters', or the one whose convertMap drops the key schema. -/
+def docX (lm : Bool) (x : X) : JS := if lm then toDocL false true x else toDocX x
 
 def instLineX (lg : Bool) (x : X) (v : Json) : String :=
   let j := docX lg x
   let p := acceptsX x v
   let rs := dedup (xReasons lg true x ++ instReasons v)
   -- self-check: the itemised reasons are empty exactly when the theorems' hypotheses hold (`c07_x_sound` / `_complete`;
-  -- on a legacy tree `c07_legacy_sound` / `_complete`)
-  let hyp := reprXTop x && (!lg || legacyOK x) && instOK v
+  -- on a tree with the old convertMap `c07_legacy_sound` / `_complete` with eo = false, em = true)
+  let hyp := reprXTop x && legacyOK false lg x && instOK v
   let coherent := rs.isEmpty == hyp
   let rs := rs ++ (match x with | .base s => ifNot (!andStrictNested s) "intersection-strict-nested" | _ => [])
   b2s p ++ " " ++ (if p then b2s (jsValid j (outX x v)) else "-") ++ " " ++ b2s (jsValid j v)
@@ -518,8 +526,8 @@ def instLineX (lg : Bool) (x : X) (v : Json) : String :=
 def convertX (lg : Bool) (o : Opts) (dup : Bool) (x : X) : Option JS :=
   if o.cyclesThrow && dup then none else some (docX lg x)
 
-/-- the harness writes `p` / `objf` on a tree whose converter ignores the objects' Partial / Required state. -/
-def isLegacy (ts : List String) : Bool := ts.contains "p" || ts.contains "objf"
+/-- the harness writes `mapf` on a tree whose convertMap drops the key schema. -/
+def isLegacy (ts : List String) : Bool := ts.contains "mapf"
 
 def handle : List String → String
   | "doc" :: ts =>
